@@ -84,7 +84,7 @@ def run_case(df, meta):
         out['iptw'] = res
 
     def gform():
-        res = {}
+        res, res_cc = {}, {}
         for std, _ in TARGETS:
             dfc = df.copy()
             g = TimeFixedGFormula(dfc, 'A', 'Y', outcome_type=otype, standardize=std, weights=wcol)
@@ -103,7 +103,16 @@ def run_case(df, meta):
             if std == 'population':
                 out['gf_q0'] = np.asarray(g.predicted_df['Y'], dtype=float)
             res[std] = (r1, r0)
+            if miss:
+                # predict_missing=False: only the rows with an observed outcome are averaged -> the standardisation of the
+                # complete-case frame
+                g.fit('all', predict_missing=False)
+                c1 = float(g.marginal_outcome)
+                g.fit('none', predict_missing=False)
+                res_cc[std] = (c1, float(g.marginal_outcome))
         out['gf'] = res
+        if miss:
+            out['gf_cc'] = res_cc
 
     def aiptw():
         dfc = df.copy()
@@ -156,8 +165,8 @@ def run_case(df, meta):
         out['tmle_eps'] = [float(x) for x in pr['epsilon']]
 
     guard('IPTW', iptw)
+    guard('TimeFixedGFormula', gform)
     if not miss:
-        guard('TimeFixedGFormula', gform)
         guard('AIPTW', aiptw)
     if not wcol:
         guard('TMLE', tmle)          # TMLE takes no weights column
@@ -219,6 +228,8 @@ def build_expr(out, meta):
                      % ec.coq_rows(S, A, Y, g1=g, q1=q1, q0=q0))
     else:
         parts.append('(@nil (list Z))')
+    parts.append('let l := filter obs (%s) in Qflat [std TAll true l; std TAll false l; std TExposed true l; std TExposed false l; '
+                 'std TUnexposed true l; std TUnexposed false l]' % raw if 'gf_cc' in out else '(@nil (list Z))')
     return '(' + ', '.join(parts) + ')', snaps_ok
 
 
@@ -275,6 +286,12 @@ def check(ctx, fails, df, meta, out, r, snaps_ok):
             cmp('TimeFixedGFormula.%s.none' % std, 'g-formula treat-none, standardize=%s' % std, r0, sp[(std, False)])
             if mod and (not close(r1, mod[2 * i], TOL_FIT) or not close(r0, mod[2 * i + 1], TOL_FIT)):
                 ctx.broken_ties.append('correspondence: g-formula model %s/%s vs implementation %r/%r' % (mod[2 * i], mod[2 * i + 1], r1, r0))
+    if 'gf_cc' in out and len(r) > 5 and r[5]:
+        cc = [frac(x) for x in r[5]]
+        for i, (std, _) in enumerate(TARGETS):
+            c1, c0 = out['gf_cc'][std]
+            cmp('TimeFixedGFormula.%s.all.predict_missing=False' % std, 'g-formula treat-all over the rows with an observed outcome, standardize=%s' % std, c1, cc[2 * i])
+            cmp('TimeFixedGFormula.%s.none.predict_missing=False' % std, 'g-formula treat-none over the rows with an observed outcome, standardize=%s' % std, c0, cc[2 * i + 1])
     # --- AIPTW
     if 'aipw' in out:
         m1, m0 = sp[('population', True)], sp[('population', False)]
@@ -357,7 +374,7 @@ def run_cases(ctx, fails, cases):
         if 'S' in out:
             e, ok = build_expr(out, meta)
         else:
-            e, ok = '(@nil (list Z), @nil (list Z), @nil (list Z), @nil (list Z), @nil (list Z))', True
+            e, ok = '(@nil (list Z), @nil (list Z), @nil (list Z), @nil (list Z), @nil (list Z), @nil (list Z))', True
         exprs.append(e)
         oks.append(ok)
     res, errs = coq_eval(ctx, 'c01', ec.IMPORTS, exprs, shard=1)
